@@ -234,16 +234,22 @@ Definition guard_group (lo hi : N) (v : Z) : res N :=
 (* ================================================================== depth counters ======================== *)
 Open Scope Z_scope.
 
-(* ---- expr/parser.rs.  Skeleton of an expression as the parser's recursion sees it. *)
+(* ---- expr/parser.rs + the block counter of syntax/walker.rs.  Skeleton of the nesting constructs of a program as
+   the parser's recursion sees them: the children of a node are the constructs nested directly inside it. *)
 Inductive sk :=
 | SLeaf                       (* number, string, boolean, variable: parse_leaf without re-entry *)
-| SNest (children : list sk)  (* ( e )   { e, e }   f(e, e)   x[e : e]   c ? e : e   a = e :
+| SNest (children : list sk)  (* ( e )   { e, e }   f(e, e)   x[e : e]   c ? e : e   a = e  -- and the entry of
+                                 expr::parse for the expression of a line (constant, #d, #if condition, ...):
                                  every child is parsed by a nested call of parse_expr (counted) *)
 | SUnary (inner : sk)         (* -e  !e : parse_unary_ops calls itself (counted) *)
 | SChain (operands : list sk) (* a op b op c ... at one precedence level: the `loop` of parse_binary_ops;
                                  operands are parsed one after the other at the SAME counter value (not a recursion) *)
-| SAsm (lines : list sk).     (* asm { ... }: every expression of an inner line (constant, data) is parsed by
-                                 expr::parse = a NEW ExpressionParser whose recursion_depth starts at 0 *)
+| SAsm (lines : list sk)      (* asm { lines }: parse_asm checks and increments walker.block_nesting_depth (the sliced
+                                 sub-walker inherits it) and hands its own recursion_depth to the sub-walker
+                                 (expr_nesting_depth): the ExpressionParser of every inner line STARTS from it *)
+| SIf (lines : list sk).      (* #if c { lines } / #else { lines }, a LINE of the current walker: parse_braced_block
+                                 checks and increments the same block_nesting_depth; the inner lines' parsers start from
+                                 the walker's expr_nesting_depth, which in line position is the current depth *)
 
 (* result of walking a skeleton: (largest value of recursion_depth, largest NATIVE nesting of counted frames) *)
 Definition pmax (a b : Z * Z) : Z * Z := (Z.max (fst a) (fst b), Z.max (snd a) (snd b)).
@@ -259,37 +265,51 @@ Definition all_max {A} (f : A -> res (Z * Z)) : list A -> Z * Z -> res (Z * Z) :
                 end
     end.
 
-(* `d` = recursion_depth on entry, `nat_d` = number of counted frames really on the stack.
-   parse_expr / parse_unary_ops:  recursion_depth += 1; if recursion_depth > LIMIT { error } *)
-Fixpoint pwalk (limit : Z) (d nat_d : Z) (s : sk) {struct s} : res (Z * Z) :=
+(* `bd` = walker.block_nesting_depth, `d` = recursion_depth of the current ExpressionParser (= the walker's
+   expr_nesting_depth where a line starts), `nat_d` = number of counted frames (expression levels + blocks) really on
+   the stack.
+   parse_expr / parse_unary_ops:  recursion_depth += 1; if recursion_depth > LIMIT { error }
+   parse_asm / parse_braced_block: if block_nesting_depth >= LIMIT { error }; block_nesting_depth += 1
+   (tree as of /repo 435a7f6: both counters are cumulative across asm blocks) *)
+Fixpoint pwalk (limit : Z) (bd d nat_d : Z) (s : sk) {struct s} : res (Z * Z) :=
   match s with
   | SLeaf => Ok (d, nat_d)
   | SNest cs => if d + 1 >? limit then Err
-                else all_max (pwalk limit (d + 1) (nat_d + 1)) cs (d + 1, nat_d + 1)
-  | SUnary c => if d + 1 >? limit then Err else pwalk limit (d + 1) (nat_d + 1) c
-  | SChain cs => all_max (pwalk limit d nat_d) cs (d, nat_d)
-  | SAsm ls => all_max (pwalk limit 0 nat_d) ls (d, nat_d)     (* fresh parser: counter restarts, the stack does not *)
+                else all_max (pwalk limit bd (d + 1) (nat_d + 1)) cs (d + 1, nat_d + 1)
+  | SUnary c => if d + 1 >? limit then Err else pwalk limit bd (d + 1) (nat_d + 1) c
+  | SChain cs => all_max (pwalk limit bd d nat_d) cs (d, nat_d)
+  | SAsm ls => if bd >=? limit then Err else all_max (pwalk limit (bd + 1) d (nat_d + 1)) ls (d, nat_d + 1)
+  | SIf ls => if bd >=? limit then Err else all_max (pwalk limit (bd + 1) d (nat_d + 1)) ls (d, nat_d + 1)
   end.
 
 (* a whole expression: expr::parse -> parse_expr (one counted entry) *)
-Definition parse_top (limit : Z) (s : sk) : res (Z * Z) := pwalk limit 0 0 (SNest [s]).
+Definition parse_top (limit : Z) (s : sk) : res (Z * Z) := pwalk limit 0 0 0 (SNest [s]).
+(* the lines of a file (asm::parser::parse): block counter 0, expression depth 0 *)
+Definition parse_lines (limit : Z) (ls : list sk) : res (Z * Z) := all_max (pwalk limit 0 0 0) ls (0, 0).
 
-(* nesting as the counter sees it / as the stack sees it *)
+(* nesting as the counters see it *)
 Fixpoint list_max (l : list Z) : Z := match l with [] => 0 | x :: r => Z.max x (list_max r) end.
-Fixpoint counted_depth (s : sk) : Z :=
+Fixpoint counted_depth (s : sk) : Z :=          (* by the expression counter, inside one parser *)
   match s with
   | SLeaf => 0
   | SNest cs => 1 + list_max (map counted_depth cs)
   | SUnary c => 1 + counted_depth c
   | SChain cs => list_max (map counted_depth cs)
-  | SAsm _ => 0
+  | SAsm _ | SIf _ => 0
   end.
-Fixpoint has_asm (s : sk) : bool :=
+Fixpoint block_depth (s : sk) : Z :=            (* by the block counter: asm blocks and #if blocks alike *)
+  match s with
+  | SLeaf => 0
+  | SNest cs | SChain cs => list_max (map block_depth cs)
+  | SUnary c => block_depth c
+  | SAsm ls | SIf ls => 1 + list_max (map block_depth ls)
+  end.
+Fixpoint has_asm (s : sk) : bool :=             (* contains a block (asm or #if): not a pure expression *)
   match s with
   | SLeaf => false
   | SNest cs | SChain cs => existsb has_asm cs
   | SUnary c => has_asm c
-  | SAsm _ => true
+  | SAsm _ | SIf _ => true
   end.
 
 (* the AST the parser builds, as far as the evaluator's recursion is concerned: height of the tree.
@@ -302,7 +322,7 @@ Fixpoint ast_height (s : sk) : Z :=
   | SNest cs => 1 + list_max (map ast_height cs)
   | SUnary c => 1 + ast_height c
   | SChain cs => match map ast_height cs with [] => 0 | h :: r => chain_height r h end
-  | SAsm _ => 1
+  | SAsm _ | SIf _ => 1
   end.
 (* eval_with_ctx recurses once per AST level and has NO counter of its own: its recursion depth is ast_height *)
 Definition eval_recursion_depth (s : sk) : Z := ast_height s.
@@ -310,7 +330,23 @@ Definition eval_recursion_depth (s : sk) : Z := ast_height s.
 Definition leaves (n : nat) : list sk := repeat SLeaf n.
 Fixpoint nest_paren (n : nat) : sk := match n with O => SLeaf | S k => SNest [nest_paren k] end.
 Fixpoint nest_unary (n : nat) : sk := match n with O => SLeaf | S k => SUnary (nest_unary k) end.
-Fixpoint nest_asm (n : nat) : sk := match n with O => SLeaf | S k => SAsm [SNest [nest_asm k]] end.
+(* x = asm { x = asm { ... } }: a line's expression (parse_expr entry) containing an asm block *)
+Fixpoint nest_asm (n : nat) : sk := match n with O => SLeaf | S k => SNest [SAsm [nest_asm k]] end.
+(* a nest of constructs given by codes, outermost first: 0 = #if block, 1 = bracket / parse_expr entry, 2 = unary operator,
+   3 = asm block; anything else = leaf *)
+Fixpoint build (codes : list nat) : sk :=
+  match codes with
+  | [] => SLeaf
+  | c :: r => match c with
+              | 0%nat => SIf [build r]
+              | 1%nat => SNest [build r]
+              | 2%nat => SUnary (build r)
+              | 3%nat => SAsm [build r]
+              | _ => SLeaf
+              end
+  end.
+Fixpoint cycle_codes (cycle : list nat) (rounds : nat) : list nat :=
+  match rounds with O => [] | S k => cycle ++ cycle_codes cycle k end.
 
 (* ---- syntax/walker.rs block_nesting_depth + asm/parser/directive_if.rs.  Line structure of a file. *)
 Inductive blk :=
